@@ -29,7 +29,7 @@ M = [
                                             "                share_completed = current_period / max(self.last_occupancy, 1)\n"),
  ('H15', 'C20', 'ciw/exactnode.py', "class ExactArrivalNode(ArrivalNode):\n    \"\"\"\n    Inherits from the ArrivalNode class, implements a\n    more precise version of addition to fix discrepencies\n    with floating point numbers.\n    \"\"\"\n\n    def increment_time(self, original, increment):\n        \"\"\"\n        Increments the original time by the increment\n        \"\"\"\n        return Decimal(str(original)) + Decimal(str(increment))\n",
                                     "class ExactArrivalNode(ArrivalNode):\n    \"\"\"\n    Inherits from the ArrivalNode class, implements a\n    more precise version of addition to fix discrepencies\n    with floating point numbers.\n    \"\"\"\n\n    def increment_time(self, original, increment):\n        \"\"\"\n        Increments the original time by the increment\n        \"\"\"\n        return Decimal(str(float(original) + float(increment)))\n"),
- ('H16', 'C02', 'ciw/node.py', "            individual_to_preempt.time_left = individual_to_preempt.service_end_date - self.now\n            individual_to_preempt.service_time = self.priority_preempt\n",
+ ('H16', 'C11', 'ciw/node.py', "            individual_to_preempt.time_left = individual_to_preempt.service_end_date - self.now\n            individual_to_preempt.service_time = self.priority_preempt\n",
                                "            individual_to_preempt.time_left = individual_to_preempt.service_end_date - individual_to_preempt.arrival_date\n            individual_to_preempt.service_time = self.priority_preempt\n"),
  ('H17', 'C03', 'ciw/node.py', "        next_individual.destination = next_node.id_number\n        if not isinf(self.c) and not self.slotted:",
                                "        next_individual.destination = next_node.id_number if not next_individual.is_blocked else self.id_number\n        if not isinf(self.c) and not self.slotted:"),
